@@ -117,8 +117,9 @@ def run(pid, tier, replay=None):
     from skepticoin.coinstate import CoinState
     pk = SECP256k1PublicKey(b"\x07" * 64)
 
-    def blk(height, prev, value):
-        cb = Transaction([Input(OutputReference(b"\x00" * 32, 0), CoinbaseData(height, b"probe"))], [Output(value, pk)])
+    def blk(height, prev, value, parts=None):
+        outs = [Output(value, pk)] if parts is None else [Output(v_, pk) for v_ in parts]
+        cb = Transaction([Input(OutputReference(b"\x00" * 32, 0), CoinbaseData(height, b"probe"))], outs)
         summ = BlockSummary(height, prev, b"\x11" * 32, 1_700_000_000 + (height & 0xffff), b"\xff" * 32, 0)
         return Block(BlockHeader(summ, PowEvidence(b"\x00" * 32, b"\x00" * 32, b"\x00" * 32)), [cb])
     probe_heights = set()
@@ -146,6 +147,22 @@ def run(pid, tier, replay=None):
             except c.ValidationError:
                 acc = False
             ev.append({"k": "enforce", "h": digits(h), "v": v, "accepted": acc})
+            nprobe += 1
+        # the reward spread over several outputs: the rule is about their total
+        splits = [[s_doc, 1], [1, s_doc], [s_doc, s_doc], [1] * 3 + [s_doc]]
+        if s_doc >= 2:
+            splits += [[s_doc // 2, s_doc - s_doc // 2], [s_doc // 2 + 1, s_doc - s_doc // 2], [s_doc - 1, 1, 1], [s_doc - 1, 1]]
+        for parts in splits:
+            parts = [p_ for p_ in parts if p_ > 0]
+            if not parts or sum(parts) >= 2 ** 31:
+                continue
+            b = blk(h, parent.hash(), 0, parts)
+            try:
+                c.validate_coinbase_transaction_in_coinstate(b.transactions[0], b, cs)
+                acc = True
+            except c.ValidationError:
+                acc = False
+            ev.append({"k": "enforce", "h": digits(h), "v": sum(parts), "accepted": acc})
             nprobe += 1
         try:
             cbt = c.construct_coinbase_transaction(h, [], {}, b"probe", pk)
